@@ -10,7 +10,11 @@ Helper lemmas: Barril/Proofs/AlgLemmas.lean (`matchOne_spec`: the invariant of t
 Vocabulary (AlgLemmas): `Operand db q` = known table units, one unit per quantity type inside the operand
 (what products, quotients and powers produce: `C04.opNew_closed`/`opNew_spec`; simple quantities are
 operands), derived flag as `ObtainQuantity` sets it; `Known db q` = known table units only (the right operand
-may hold several units of one quantity type); `dim`, `mag`, `baseMag`, `ScaleOnlyQ` as in C04.
+may hold several units of one quantity type); `dim`, `mag`, `baseMag`, `ScaleOnlyQ`, `Scales` as in C04:
+`Scales db q1 q2` = the right operand is not of the simple shape (one entry with exponent 1), or neither
+operand has a unit with an offset.  Since the repair of `_ConvertMatchingExp` every entry of a derived right
+operand is scaled by its unit ratio ** exponent, offsets or not; only a SIMPLE right operand is converted with
+its offset (that is the property's first sentence for simple operands, and the known finding for b+a).
 -/
 import Barril.Proofs.AlgLemmas
 import Barril.Props.C01
@@ -56,9 +60,9 @@ theorem add_sub_value_simple {db : Db} (hdb : db.AllWF) (op : SameOp) {c1 u1 cap
       = .ok (⟨[⟨c1, u1, 1⟩], cap1, false⟩, applySame op v1 (convVal r2 r1 v2)) := by
   have k1 : ∀ e ∈ [(⟨c1, u1, 1⟩ : Entry)], EntryOK db e := by
     intro e he; simp only [List.mem_singleton] at he; subst he; exact ⟨r1, hu1, hc1⟩
-  have hconv := convertMatchingExp_rows hdb hu2 hu1 hq.symm 1 v2
+  have hconv := convertMatchingExp_rows hdb hu2 hu1 hq.symm 1 v2 false
   rw [hq] at hconv
-  simp only [true_or, ↓reduceIte] at hconv
+  simp only [and_self, or_true, ↓reduceIte] at hconv
   have k2 : ∀ e ∈ [(⟨c2, u1, 1⟩ : Entry)], EntryOK db e := by
     intro e he; simp only [List.mem_singleton] at he; subst he; exact ⟨r1, hu1, hc2⟩
   unfold opSame
@@ -70,7 +74,8 @@ theorem add_sub_value_simple {db : Db} (hdb : db.AllWF) (op : SameOp) {c1 u1 cap
     have : r2 = r1 := by have a := hu2.row; rw [hu1.row] at a; injection a with a; exact a.symm
     subst this
     rw [convVal_self (hdb _ (unitBySym_mem hu1.row))]
-  · simp only [matchQuantities, matchOne, hc1, hc2, lookupU, beq_self_eq_true, ↓reduceIte, hconv]
+  · have hd : isDerivedDict [(⟨c2, u2, 1⟩ : Entry)] = false := by simp [isDerivedDict]
+    simp only [matchQuantities, matchOne, hc1, hc2, lookupU, beq_self_eq_true, ↓reduceIte, hd, hconv]
     rw [obtainFromDict_known _ cap1 k1, obtainFromDict_known _ cap2 k2]
     simp [isSimpleShape, pickSame, joined, joinedFrom, addJoined, sameSet]
 
@@ -79,13 +84,13 @@ unit's exponent.**  `e2'` is the right operand's dict with the same categories a
 quantity type, the unit the left operand uses; the value that is added/subtracted is
 `b.value · Π slope(b's unit)^exp / Π slope(a's unit)^exp`. -/
 theorem add_sub_value_reexpressed {db : Db} (hdb : db.AllWF) {q1 q2 : Quantity} (v2 : Rat)
-    (h1 : Operand db q1) (h2 : Known db q2) (s1 : ScaleOnlyQ db q1) (s2 : ScaleOnlyQ db q2) (hneq : q1.eqv q2 = false) :
+    (h1 : Operand db q1) (h2 : Known db q2) (hs : Scales db q1 q2) (hneq : q1.eqv q2 = false) :
     ∃ e2' : List Entry, e2'.map catExp = q2.entries.map catExp
       ∧ (∀ e' ∈ e2', ∀ e ∈ q1.entries, ∀ qt, hasType db qt e = true → hasType db qt e' = true → e'.unit = e.unit)
       ∧ mag db e2' ≠ 0
       ∧ ∀ op v1 q v, opSame db op q1 q2 v1 v2 = .ok (q, v) →
           v = applySame op v1 (v2 * mag db q2.entries / mag db e2') := by
-  obtain ⟨used, e2', w2, hce, hgood, _, hmag, hshape⟩ := opSame_shape hdb (ScaleOnly db) v2 h1 h2 s1 s2
+  obtain ⟨used, e2', w2, hce, hgood, hmag, hshape⟩ := opSame_scaled hdb v2 h1 h2 hs
   have hU := unified_of_good hgood
   have hm0 : mag db e2' ≠ 0 := mag_ne_zero _ (fun e he => by
     obtain ⟨r, hr, _⟩ := hgood e (List.mem_append_right _ he); exact slope_ne_zero hdb hr)
@@ -100,7 +105,7 @@ theorem add_sub_value_reexpressed {db : Db} (hdb : db.AllWF) {q1 q2 : Quantity} 
     · cases h
     · injection h with h; injection h with h1' h2'
       rw [← h2']
-      have := hmag (fun _ hu => hu)
+      have := hmag
       congr 1
       field_simp
       linarith
@@ -108,11 +113,11 @@ theorem add_sub_value_reexpressed {db : Db} (hdb : db.AllWF) {q1 q2 : Quantity} 
 /-- **physical soundness: in base units, a ± b is the sum/difference of the two amounts** (matching
 dimensions, units without offset; derived units of any exponent, several categories and units per type) -/
 theorem add_sub_phys {db : Db} (hdb : db.AllWF) {op : SameOp} {q1 q2 q : Quantity} {v1 v2 v : Rat}
-    (h1 : Operand db q1) (h2 : Known db q2) (s1 : ScaleOnlyQ db q1) (s2 : ScaleOnlyQ db q2)
+    (h1 : Operand db q1) (h2 : Known db q2) (hs : Scales db q1 q2)
     (hd : ∀ qt, dim db qt q1.entries = dim db qt q2.entries)
     (h : opSame db op q1 q2 v1 v2 = .ok (q, v)) :
     baseMag db q1 v = applySame op (baseMag db q1 v1) (baseMag db q2 v2) := by
-  obtain ⟨used, e2', w2, hce, hgood, _, hmag, hshape⟩ := opSame_shape hdb (ScaleOnly db) v2 h1 h2 s1 s2
+  obtain ⟨used, e2', w2, hce, hgood, hmag, hshape⟩ := opSame_scaled hdb v2 h1 h2 hs
   rw [hshape op v1] at h
   split at h
   · rename_i heq
@@ -131,7 +136,7 @@ theorem add_sub_phys {db : Db} (hdb : db.AllWF) {op : SameOp} {q1 q2 q : Quantit
         intro e he; obtain ⟨r, hr, _⟩ := hgood e he; exact slope_ne_zero hdb hr
       have hmm : mag db e2' = mag db q1.entries :=
         mag_congr_totals' q1.entries e2' hsl (fun u => (unitTotal_eq_of_dims hgood hd' u).symm)
-      have hw := hmag (fun _ hu => hu)
+      have hw := hmag
       rw [hmm] at hw
       unfold baseMag; rw [← hv, ← hw]
       cases op <;> simp [applySame] <;> ring
@@ -234,11 +239,14 @@ Full statement (FALSE, known finding C03-affine-offset-commutativity):
   theorem add_comm_phys : a+b and b+a denote the same physical amount for all dimension-compatible operands.
 For two simple operands whose units have different offsets (degC + K) the first sentence of the property fixes
 a+b = a.value + Convert(b → a's unit) in a's unit, which is not symmetric: see the counterexample below.
-Proved: the statement for units without offset (all derived shapes), and the counterexample.
+Proved: the statement whenever both re-expressions scale (`Scales` in both directions: both operands derived -
+offsets allowed - or no unit with an offset at all), and the counterexample.  Not covered besides the known
+finding: one SIMPLE operand with an offset unit facing a derived operand of the same dimension (e.g. K against
+degC2/degC): the simple side is converted with its offset, the derived side is scaled.
 -/
-/-- **a+b and b+a denote the same amount** (units without offset) -/
+/-- **a+b and b+a denote the same amount** (both operands derived, or no unit with an offset) -/
 theorem add_comm_phys_partial {db : Db} (hdb : db.AllWF) {q1 q2 q q' : Quantity} {v1 v2 v v' : Rat}
-    (h1 : Operand db q1) (h2 : Operand db q2) (s1 : ScaleOnlyQ db q1) (s2 : ScaleOnlyQ db q2)
+    (h1 : Operand db q1) (h2 : Operand db q2) (s12 : Scales db q1 q2) (s21 : Scales db q2 q1)
     (n1 : q1.entries ≠ []) (n2 : q2.entries ≠ [])
     (hd : ∀ qt, dim db qt q1.entries = dim db qt q2.entries)
     (hab : opSame db .add q1 q2 v1 v2 = .ok (q, v)) (hba : opSame db .add q2 q1 v2 v1 = .ok (q', v')) :
@@ -246,7 +254,7 @@ theorem add_comm_phys_partial {db : Db} (hdb : db.AllWF) {q1 q2 q q' : Quantity}
   have e1 := add_sub_left_quantity hdb h1 h2.known n1 hab
   have e2 := add_sub_left_quantity hdb h2 h1.known n2 hba
   subst e1; subst e2
-  rw [add_sub_phys hdb h1 h2.known s1 s2 hd hab, add_sub_phys hdb h2 h1.known s2 s1 (fun qt => (hd qt).symm) hba]
+  rw [add_sub_phys hdb h1 h2.known s12 hd hab, add_sub_phys hdb h2 h1.known s21 (fun qt => (hd qt).symm) hba]
   simp only [applySame]; ring
 
 section examples
@@ -269,12 +277,13 @@ theorem add_comm_affine_counterexample :
     ∧ poscDb.convert (S "temperature") (S "degC") (S "K") (R (-26215) 100) = .ok 11 := by
   refine ⟨by decide +kernel, by decide +kernel, by decide +kernel⟩
 
-/-- **open finding (not in known_findings.json)**: inside a DERIVED operand a unit with an offset and exponent 1
-is converted with its offset instead of being scaled: (10 degC·m) + (1 m·K) gives −262.15 degC·m, although
-re-expressing 1 m·K in degC·m "scales by each unit ratio raised to that unit's exponent" (ratio K/degC = 1),
-i.e. should give 11 degC·m -/
-theorem add_derived_affine_counterexample :
-    opSame poscDb .add qDegCm qmK 10 1 = .ok (qDegCm, R (-26215) 100) := by decide +kernel
+/-- **the repaired defect** (fix "unit matching inside a derived quantity scales units that have an offset"):
+inside a derived operand a unit with an offset is scaled, not shifted: (10 degC·m) + (1 m·K) = 11 degC·m
+(it was −262.15 degC·m), and the other order gives 11 m·K -/
+theorem add_derived_affine_scaled :
+    opSame poscDb .add qDegCm qmK 10 1 = .ok (qDegCm, 11)
+    ∧ opSame poscDb .add qmK qDegCm 1 10 = .ok (qmK, 11) := by
+  refine ⟨by decide +kernel, by decide +kernel⟩
 
 -- non-vacuity: the hypotheses are met by derived operands of the POSC table, and the model computes the
 -- repaired behaviour of the two examples of the property text
